@@ -49,7 +49,7 @@ SPEC = dict(
     ],
 )
 
-CLAIMED = False
+CLAIMED = True
 MANIFEST = dict(
     level="exploration",
     engine="seqx",
